@@ -24,17 +24,30 @@ var reasonNames = map[error]string{
 // (ETypeMismatch|EOther, "!raw").
 func coqErr(err error) string {
 	if e, ok := err.(ucfg.Error); ok {
-		name, ok := reasonNames[e.Reason()]
-		if !ok {
-			name = "EOther"
-		}
-		return "(OE " + name + " " + coqStr(e.Path()) + ")"
+		return "(OE " + reasonName(e) + " " + coqStr(e.Path()) + ")"
 	}
 	name, ok := reasonNames[err]
 	if !ok {
 		name = "EOther"
 	}
 	return "(OE " + name + " " + coqStr("!raw:"+err.Error()) + ")"
+}
+
+// reasonName maps the reason of a ucfg.Error to the model's enum; a reason that is itself a
+// ucfg.Error (raisePathErr wrapping an inner error) is unwrapped.
+func reasonName(e ucfg.Error) string {
+	r := e.Reason()
+	for i := 0; i < 8; i++ {
+		inner, ok := r.(ucfg.Error)
+		if !ok {
+			break
+		}
+		r = inner.Reason()
+	}
+	if name, ok := reasonNames[r]; ok {
+		return name
+	}
+	return "EOther"
 }
 
 func descErr(err error) string {
